@@ -156,6 +156,9 @@ static void handle(const Fields & q, Fields & a) {
 			if (!mmd_engine_root(e)) mmd_engine_parse_string(e);
 			DString * o = d_string_new(""); mmd_engine_export_token_tree(o, e, (short)L(q[2])); a.push_back(std::string(o->str, o->currentStringLength)); d_string_free(o, true); return;
 		}
+		if (op == "esub") { // id start len : parse a sub-range of the source (what an editor does for a changed region); no output
+			DString * d = mmd_engine_d_string(e); size_t n = d->currentStringLength; size_t st_ = n ? (size_t)L(q[2]) % (n + 1) : 0; size_t ln = (n - st_) ? (size_t)L(q[3]) % (n - st_ + 1) : 0;
+			mmd_engine_parse_substring(e, st_, ln); a.push_back(S((long)st_)); return; }
 		if (op == "ehas") { size_t end = 0; bool h = mmd_engine_has_metadata(e, &end); a.push_back(h ? "1" : "0"); a.push_back(S(end)); return; }
 		if (op == "ekeys") { char * r = mmd_engine_metadata_keys(e); if (r) { a.push_back(r); free(r); } else { a[0] = "null"; a.push_back(""); } return; }
 		if (op == "evalue") { char * r = mmd_engine_metavalue_for_key(e, q[2].c_str()); if (r) a.push_back(r); else { a[0] = "null"; a.push_back(""); } return; }
